@@ -26,14 +26,13 @@ Inductive sog :=
 | SInt (z : Z)                           (* a Python int *)
 | SGen (h : nat)                         (* a np.random.Generator object (handle) *)
 | SModule                                (* the module np.random itself (what to_stream(None) returns) *)
-| SNpInt (z : Z).                        (* a numpy integer such as np.int64(5): `type(x) == int` is False *)
+| SNpInt (z : Z).                        (* a numpy integer such as np.int64(5): isinstance(x, (int, np.integer)) *)
 (* what the variable `stream` refers to after to_stream *)
 Inductive sref :=
 | RefGlobal                              (* the module np.random (global RandomState) *)
-| RefGen (h : nat)                       (* a Generator object *)
-| RefNpInt (z : Z).                      (* not a stream at all: the number itself, handed on as `random_state` *)
+| RefGen (h : nat).                      (* a Generator object *)
 Definition as_arg (r : sref) : sog :=
-  match r with RefGlobal => SModule | RefGen h => SGen h | RefNpInt z => SNpInt z end.
+  match r with RefGlobal => SModule | RefGen h => SGen h end.
 
 Section Streams.
 Context {G V : Type}.
@@ -70,25 +69,25 @@ Fixpoint mapM {X A} (f : X -> M A) (xs : list X) : M (list A) :=
 
 (* ---- to_stream(seed_or_generator) ----
      if seed_or_generator is None: stream = np.random
-     elif type(seed_or_generator) == int: stream = np.random.Generator(np.random.MT19937(seed_or_generator))
-     else: stream = seed_or_generator                                                         *)
+     elif isinstance(seed_or_generator, (int, np.integer)):
+         stream = np.random.Generator(np.random.MT19937(seed_or_generator))
+     else: stream = seed_or_generator
+   (as repaired by fixes/C14-to-stream-numpy-integer-seed: before, `type(x) == int` let a numpy integer fall through to the
+   last branch, so the NUMBER was handed to scipy as random_state and every multinomial request restarted from it) *)
 Definition to_stream (s : sog) : M sref := fun w =>
   match s with
   | SNone => (RefGlobal, w)
   | SInt z => (RefGen (length (gens w)), alloc_gen (mkgen z) w)
   | SGen h => (RefGen h, w)
   | SModule => (RefGlobal, w)
-  | SNpInt z => (RefNpInt z, w)
+  | SNpInt z => (RefGen (length (gens w)), alloc_gen (mkgen z) w)
   end.
 
 (* state selected by / written back through a stream reference *)
-(* a numpy integer handed to scipy as `random_state` makes scipy build RandomState(z) afresh for EVERY request (and the
-   advanced state is thrown away); `stream.random(n)` on such a value raises AttributeError, which is not modelled:
-   requests through RefNpInt are meaningful for the multinomial requests only *)
 Definition sel (r : sref) (w : world) : G :=
-  match r with RefGlobal => glob w | RefGen h => nth h (gens w) (mkgen 0%Z) | RefNpInt z => gseed z end.
+  match r with RefGlobal => glob w | RefGen h => nth h (gens w) (mkgen 0%Z) end.
 Definition put (r : sref) (g : G) (w : world) : world :=
-  match r with RefGlobal => set_glob g w | RefGen h => set_gen h g w | RefNpInt _ => w end.
+  match r with RefGlobal => set_glob g w | RefGen h => set_gen h g w end.
 Definition request (r : sref) (q : req) : M V := fun w =>
   let (v, g') := draw (sel r w) q in (v, put r g' w).
 
@@ -188,10 +187,11 @@ Definition tomo_empi_dists_seq (Sn : nat) (num_sums : list Z) (s : sog) : M R :=
   bind (ex_empi_seqs Sn (zipstar (repeat num_sums Sn)) (as_arg r)) (fun e =>
   ret (match e with EOk rows => EOk (zipstar rows) | EErr c => EErr c end)))).
 
-(* QTomography.reset_seed(seed) on object o:  `if seed:` — the integer 0 is treated like None *)
+(* QTomography.reset_seed(seed) on object o:  `if seed is not None:` reset_seed_data(seed) else reset_seed_data(own seed_data)
+   (as repaired by fixes/C14-reset-seed-zero; before, `if seed:` treated the integer 0 like None) *)
 Definition tomo_reset_seed (o : nat) (seed : option Z) : M unit := fun w =>
   match seed with
-  | Some z => if (z =? 0)%Z then reset_seed_data o (objs w o) w else reset_seed_data o (Some z) w
+  | Some z => reset_seed_data o (Some z) w
   | None => reset_seed_data o (objs w o) w
   end.
 
@@ -329,9 +329,9 @@ Definition after_copy (c : call) (w : world) : world := if call_copies c then sn
 (* generate_dataset_from_prob_dists takes a LIST of seeds; it is a single-stream entry point only without one *)
 Definition single_stream (c : call) (s : sog) : Prop :=
   match c with CDgDataset _ _ ss => ss = None /\ s = SNone | _ => True end.
-(* the seed argument denotes an existing stream (a Generator handle must exist; a numpy integer is no stream) *)
+(* the seed argument denotes a stream (a Generator handle must exist) *)
 Definition valid_sog (s : sog) (w : world) : Prop :=
-  match s with SGen h => (h < length (gens w))%nat | SNpInt _ => False | _ => True end.
+  match s with SGen h => (h < length (gens w))%nat | _ => True end.
 
 End Streams.
 
